@@ -76,6 +76,11 @@ func (d *D) NormAtom(cond ssa.Value, pol bool) Atom {
 			return d.NormAtom(r, pol)
 		}
 	}
+	if c, ok := cond.(*ssa.Call); ok {
+		if rv, sub, ok := d.inlinePureCond(c); ok {
+			return sub.NormAtom(rv, pol)
+		}
+	}
 	if b, ok := cond.(*ssa.BinOp); ok {
 		x, y := d.Of(b.X), d.Of(b.Y)
 		switch b.Op {
@@ -91,13 +96,13 @@ func (d *D) NormAtom(cond ssa.Value, pol bool) Atom {
 			}
 			return Atom{x + "==" + y, pol}
 		case token.LSS:
-			return Atom{x + "<" + y, pol}
+			return lenZero(Atom{x + "<" + y, pol})
 		case token.GTR:
-			return Atom{y + "<" + x, pol}
+			return lenZero(Atom{y + "<" + x, pol})
 		case token.GEQ: // x >= y  ≡ !(x < y)
-			return Atom{x + "<" + y, !pol}
+			return lenZero(Atom{x + "<" + y, !pol})
 		case token.LEQ: // x <= y ≡ !(y < x)
-			return Atom{y + "<" + x, !pol}
+			return lenZero(Atom{y + "<" + x, !pol})
 		}
 	}
 	return Atom{d.Of(cond), pol}
@@ -160,4 +165,18 @@ func soleEntry(d, b *ssa.BasicBlock) bool {
 		}
 	}
 	return n == 1
+}
+
+// lenZero normalises comparisons of a length with zero/one to the equality
+// with zero (a length is never negative): 0 < len(x) ≡ ¬(0 == len(x)),
+// len(x) < 1 ≡ (0 == len(x)).
+func lenZero(a Atom) Atom {
+	const z = "0:int<dyn:len("
+	if strings.HasPrefix(a.S, z) {
+		return Atom{"0:int==dyn:len(" + a.S[len(z):], !a.Pol}
+	}
+	if strings.HasPrefix(a.S, "dyn:len(") && strings.HasSuffix(a.S, ")<1:int") {
+		return Atom{"0:int==" + strings.TrimSuffix(a.S, "<1:int"), a.Pol}
+	}
+	return a
 }
